@@ -95,6 +95,33 @@ theorem exists_two_last {α : Type} : ∀ (l : List α), 2 ≤ l.length → ∃ 
     obtain ⟨pre, g, last, h⟩ := exists_two_last (b :: c :: rest) (by simp)
     exact ⟨a :: pre, g, last, by rw [h]; rfl⟩
 
+/-! ### `Decoder` with `ce` -/
+
+/-- The last input presented at an enabled edge, if any. -/
+def lastEnabled (ins : List (Bool × Nat)) : Option Nat := ((ins.filter (·.1)).map (·.2)).getLast?
+
+theorem decoder_runFrom (lsb : Bool) (ins : List (Bool × Nat)) (s : DecState) :
+    (decoder lsb).runFrom s ins = match lastEnabled ins with
+      | some w => decStep lsb w
+      | none => s := by
+  induction ins generalizing s with
+  | nil => rfl
+  | cons i is ih =>
+    obtain ⟨ce, w⟩ := i
+    rw [Machine.runFrom, ih]
+    cases ce
+    · simp [decoder, lastEnabled]
+    · simp only [decoder, lastEnabled, List.filter_cons_of_pos, List.map_cons, ite_true]
+      cases h : (List.map (fun x => x.2) (List.filter (fun x => x.1) is)).getLast? with
+      | none =>
+        have : List.map (fun x => x.2) (List.filter (fun x => x.1) is) = [] := List.getLast?_eq_none_iff.mp h
+        simp [this]
+      | some v =>
+        have hne : List.map (fun x => x.2) (List.filter (fun x => x.1) is) ≠ [] := by
+          intro h0; rw [h0] at h; simp at h
+        rw [List.getLast?_cons_of_ne_nil hne] at *
+        simp [h]
+
 /-! ### decoding lsb-first words -/
 
 /-- What `Decoder(lsb_first=True)` shows one enabled cycle after `w`. -/
